@@ -436,6 +436,49 @@ func runC08(env *core.Env) {
 			}
 		}
 	}
+	// decimals that are whole multiples of ten however they are held: elements written in exponent form, and results of
+	// functions that go through floating point
+	if env.Shard == 4%env.NShards {
+		type ec struct{ text, fn, want string }
+		var ecs []ec
+		for _, t := range []struct{ text string; fl, ce, tr int64 }{{"1E2", 100, 100, 100}, {"2.5E3", 2500, 2500, 2500}, {"-7e+1", -70, -70, -70}, {"1.25E1", 12, 13, 12}, {"-1.25E1", -13, -12, -12}, {"3E0", 3, 3, 3}, {"1.5E0", 1, 2, 1}, {"12E-1", 1, 2, 1}, {"1E9", 1000000000, 1000000000, 1000000000}, {"5E1", 50, 50, 50}, {"-5E-1", -1, 0, 0}, {"0E3", 0, 0, 0}} {
+			ecs = append(ecs, ec{t.text, "floor", fmt.Sprint(t.fl)}, ec{t.text, "ceiling", fmt.Sprint(t.ce)}, ec{t.text, "truncate", fmt.Sprint(t.tr)}, ec{t.text, "round", ""})
+		}
+		for _, c := range ecs {
+			for _, carrier := range []string{"%x", "%q.value", "(%x + 0)", "(%x * 1)", "%x.abs()"} {
+				if strings.HasPrefix(c.text, "-") && carrier == "%x.abs()" {
+					continue
+				}
+				src := carrier + "." + c.fn + "()"
+				eo := []fhirpath.EvaluateOption{evalopts.EnvVariable("x", &dtpb.Decimal{Value: c.text}), evalopts.EnvVariable("q", &dtpb.Quantity{Value: &dtpb.Decimal{Value: c.text}, Code: &dtpb.Code{Value: "mg"}})}
+				r := fx.Eval(env, src, nil, nil, eo)
+				env.Cover("exponent-form-decimal")
+				if r.IsPanic() {
+					env.Violatef(fx.PanicSig("C08", r), "`%s` with the decimal element %q => %s", src, c.text, r.Short())
+					continue
+				}
+				it, ok := r.Single()
+				if !ok || c.want == "" {
+					continue // refusing the element is not decided here
+				}
+				if it.K != "Integer" || it.T != c.want {
+					env.Violatef("C08/exponent-form/"+c.fn, "`%s` with the decimal element %q: expected Integer(%s), observed %s", src, c.text, c.want, trunc(r.Short(), 80))
+				}
+			}
+		}
+		for _, c := range [][2]string{{"100.sqrt().floor()", "10"}, {"100.sqrt().ceiling()", "10"}, {"100.sqrt().truncate()", "10"}, {"10000.sqrt().floor()", "100"}, {"1000000.sqrt().truncate()", "1000"}, {"10.0.power(3).truncate()", "1000"}, {"10.0.power(2).floor()", "100"}, {"10.0.power(2).ceiling()", "100"},
+			{"400.sqrt().floor()", "20"}, {"2500.0.sqrt().ceiling()", "50"}, {"100.sqrt().round()", ""}, {"1000.log(10).floor()", ""}, {"0.exp().floor()", "1"}, {"1.ln().ceiling()", "0"}, {"16.sqrt().floor()", "4"}, {"2.0.power(10).truncate()", "1024"}, {"10.power(3).truncate()", "1000"}, {"1000000.0.sqrt().floor()", "1000"}} {
+			r := fx.E(env, c[0])
+			env.Cover("float-derived-decimal")
+			if r.IsPanic() {
+				env.Violatef(fx.PanicSig("C08", r), "`%s` => %s", c[0], r.Short())
+				continue
+			}
+			if it, ok := r.Single(); ok && c[1] != "" && (it.K != "Integer" || it.T != c[1]) {
+				env.Violatef("C08/float-derived/"+strings.SplitN(c[0], ".", 2)[0], "`%s`: expected Integer(%s), observed %s", c[0], c[1], trunc(r.Short(), 80))
+			}
+		}
+	}
 	// one literal operand, the other arriving through a variable whose type alternates between Integer and
 	// Decimal from one evaluation to the next (one source text, hence - through fx.Eval - also one compiled
 	// expression evaluated many times): the literal must be read afresh each time
